@@ -5,16 +5,20 @@ uint64_t x__ZNSt6chrono3_V212system_clock3nowEv(void) { int64_t t = nondet_i64()
 /* std::string members used by line-text handling (include after cxx.c; ISO C++ semantics):
    find_last_not_of(const char *set, size_t pos): index of the last character at or before pos that is not in set, npos if none;
    substr(pos, n): copy of [pos, pos + min(n, size - pos)) (pos <= size within the harness bounds, asserted) */
+static int vf28_in_set(uint8_t c, const uint8_t *set)     /* sets of up to 3 characters (longer ones are outside the harness bounds, asserted) */
+{
+  if (!set[0]) return 0; if (c == set[0]) return 1;
+  if (!set[1]) return 0; if (c == set[1]) return 1;
+  if (!set[2]) return 0; if (c == set[2]) return 1;
+  __CPROVER_assert(!set[3], "string model: find_last_not_of character set of at most 3 characters");
+  return 0;
+}
 uint64_t x__ZNKSt7__cxx1112basic_stringIcSt11char_traitsIcESaIcEE16find_last_not_ofEPKcm(vstr *s, uint8_t *set, uint64_t pos)
 {
-  uint64_t n = VS_N(s); if (n == 0) return (uint64_t)-1;
-  uint64_t i = pos < n - 1 ? pos : n - 1;
-  for (uint64_t k = 0; k <= VF_MAXCOPY; k++) {
-    uint8_t c = VS_P(s)[i]; int in = 0; for (uint64_t j = 0; j < 8 && set[j]; j++) if (set[j] == c) in = 1;
-    if (!in) return i;
-    if (i == 0) return (uint64_t)-1;
-    i--;
-  }
+  uint64_t n = VS_N(s);
+  __CPROVER_assert(n <= VF_MAXCOPY, "string model: length within VF_MAXCOPY");
+  for (uint64_t k = VF_MAXCOPY; k-- > 0; )                                  /* constant trip count, highest index first */
+    if (k < n && k <= pos && !vf28_in_set(VS_P(s)[k], set)) return k;
   return (uint64_t)-1;
 }
 void x__ZNKSt7__cxx1112basic_stringIcSt11char_traitsIcESaIcEE6substrEmm(vstr *res, vstr *s, uint64_t pos, uint64_t n)
